@@ -357,25 +357,69 @@ func ruleTypePredicates(c *Ctx, rule string) {
 	}
 }
 
+// ruleChanDirTable: reflect.ChanDir -> types.ChanDir.
+func ruleChanDirTable(c *Ctx, rule string) {
+	pk := c.P.Pkg("xreflect")
+	info := pk.TypesInfo
+	fd := c.P.Func("xreflect.dirToGdir")
+	if fd == nil {
+		c.Ob(rule, "xreflect.dirToGdir", nil, false, "anchor function not found")
+		return
+	}
+	want := map[string]string{"RecvDir": "RecvOnly", "SendDir": "SendOnly", "BothDir": "SendRecv"}
+	got := map[string]string{}
+	ast.Inspect(fd.Body, func(nd ast.Node) bool {
+		cl, ok := nd.(*ast.CaseClause)
+		if !ok || len(cl.List) != 1 {
+			return true
+		}
+		k := usedObj(info, cl.List[0])
+		for _, st := range cl.Body {
+			switch x := st.(type) {
+			case *ast.AssignStmt:
+				if v := usedObj(info, x.Rhs[0]); k != nil && v != nil {
+					got[k.Name()] = v.Name()
+				}
+			case *ast.ReturnStmt:
+				if len(x.Results) == 1 {
+					if v := usedObj(info, x.Results[0]); k != nil && v != nil {
+						got[k.Name()] = v.Name()
+					}
+				}
+			}
+		}
+		return true
+	})
+	ok := len(got) == len(want)
+	for k, v := range want {
+		if got[k] != v {
+			ok = false
+		}
+	}
+	c.Ob(rule, "xreflect.dirToGdir", fd, ok, fmt.Sprintf("channel directions map RecvDir->RecvOnly, SendDir->SendOnly, BothDir->SendRecv (found %v)", got))
+}
+
 func init() {
 	register(&PropDef{
 		ID:    "C29",
 		Title: "Interpreter types are canonical and agree with reflect and Go typing rules",
 		Explanation: "Decided (structural clauses): K1 an xtype is allocated only in Universe.maketype4 and while the basic types of a universe are created (init.go); K2 in maketype4 the identity-keyed cache (a typeutil.Map, C28) is consulted with the go/types key before the allocation, the new type records that key, is added to the cache (Types.add stores it under its own gtype), and a cache hit is returned as is or completed in place; " +
 			"K3 Size/Align/FieldAlign/Bits are the reflect type's answers, AssignableTo/ConvertibleTo ask reflect and go/types with the receiver first and the argument second, Comparable and identity are go/types' on the types' gtype, the kind is derived from the cached gtype; " +
-			"K4 ArrayOf, ChanOf, MapOf, PtrTo, SliceOf build the go/types side with types.NewX and the reflect side with reflect.XOf from the same component types in the same order, through the caching MakeType. " +
+			"K4 ArrayOf, ChanOf, MapOf, PtrTo, SliceOf build the go/types side with types.NewX and the reflect side with reflect.XOf from the same component types in the same order, through the caching MakeType; the channel direction table maps RecvDir, SendDir, BothDir to RecvOnly, SendOnly, SendRecv. " +
 			"Not decided: that maketype4 never creates a second type for a cached key whose reflect type disagrees (it does, by design of its default arm), struct/func/interface/named constructors, field and method lookup, agreement with reflect on every type of the import tables.",
 		Assumptions: []string{"typeutil.Map keys by type identity (C28)", "go/types predicates implement the Go specification"},
 		Rules: []func(*Ctx){func(c *Ctx) {
 			ruleTypeCanonical(c, "K1-canonical-cache")
 			ruleTypePredicates(c, "K3-predicates")
 			ruleTypeConstructors(c, "K4-constructors")
+			ruleChanDirTable(c, "K4-constructors")
 		}},
 		Technique: "AST/type-resolved custom analysis: who-may-allocate, lookup-before-allocate-before-store order, delegation and operand-order checks",
 		Mutants: []Mutant{
 			{Name: "new-type-not-cached", File: "xreflect/type.go", Old: "\tt := wrap(xt)\n\tv.add(t)\n", New: "\tt := wrap(xt)\n", Canary: true},
 			{Name: "assignable-operands-swapped", File: "xreflect/type.go", Old: "(types.AssignableTo(t.gtype, xu.gtype) &&", New: "(types.AssignableTo(xu.gtype, t.gtype) &&", Canary: true},
 			{Name: "map-key-elem-swapped-on-reflect-side", File: "xreflect/composite.go", Old: "r.MapOf(k.approxReflectType(), e.approxReflectType())", New: "r.MapOf(e.approxReflectType(), k.approxReflectType())"},
+			{Name: "send-only-channel-becomes-receive-only", File: "xreflect/util.go", Old: "\tcase r.SendDir:\n\t\tret = types.SendOnly", New: "\tcase r.SendDir:\n\t\tret = types.RecvOnly"},
 			{Name: "type-allocated-outside-cache", File: "xreflect/composite.go", Old: "func (v *Universe) SliceOf(elem Type) Type {\n\te := unwrap(elem)\n\treturn v.MakeType(", New: "func (v *Universe) SliceOf(elem Type) Type {\n\te := unwrap(elem)\n\tif e.kind == r.Invalid {\n\t\treturn wrap(&xtype{kind: r.Slice, gtype: types.NewSlice(e.gtype), rtype: rTypeOfForward, universe: v})\n\t}\n\treturn v.MakeType("},
 			{Name: "size-from-alignment", File: "xreflect/type.go", Old: "\treturn t.rtype.Size()", New: "\treturn uintptr(t.rtype.Align())"},
 			{Name: "convertible-asks-reflect-backwards", File: "xreflect/type.go", Old: "rt != nil && ru != nil && rt.ConvertibleTo(ru) {", New: "rt != nil && ru != nil && ru.ConvertibleTo(rt) {"},
